@@ -558,7 +558,8 @@ impl<'a, 'd> Gen<'a, 'd> {
             for m in 0..nm {
                 let np = self.d.below(3);
                 let params: Vec<Ty> = (0..np).map(|_| self.sig_ty()).collect();
-                let ret = self.sig_ty();
+                // methods called for their effect are common
+                let ret = if self.d.chance(50) { Ty::Unit } else { self.sig_ty() };
                 methods.push(TraitSig { name: format!("m{t}x{m}"), params, ret });
             }
             self.p.traits.push(TraitDef { name: format!("Tr{t}"), methods: methods.clone() });
@@ -682,6 +683,25 @@ impl<'a, 'd> Gen<'a, 'd> {
             _ => self.label("dyn:from-prim"),
         }
         Expr::Coerce(tr, Box::new(src))
+    }
+
+    /// `let v: R = <recv>.m(args);` / `let v: R = Tr::m(<recv>, args);` for a receiver whose
+    /// implementation is chosen at run time (bounded type parameter or trait object)
+    fn dispatch_stmt(&mut self, recv: Expr, tr: usize, bound: bool, fuel: i32) -> Stmt {
+        let mi = self.d.below(self.p.traits[tr].methods.len());
+        let sig = self.p.traits[tr].methods[mi].clone();
+        let form = if bound && self.d.bool() {
+            self.label("method:bound-dot");
+            MForm::Dot
+        } else {
+            self.label(if bound { "method:bound-ufcs" } else { "method:dyn" });
+            MForm::TraitUfcs
+        };
+        self.label("method-call");
+        let mut args = vec![recv];
+        args.extend(self.call_args(&sig.params, fuel));
+        let v = self.new_var(sig.ret.clone(), true);
+        Stmt::Let(Pat::Var(v), Some(sig.ret.clone()), Expr::Call(Callee::Dispatch(tr, mi, form), args))
     }
 
     /// method calls whose result type is `t`
@@ -1039,6 +1059,7 @@ impl<'a, 'd> Gen<'a, 'd> {
                     args.push(a);
                 }
                 let call = Expr::Call(Callee::Dispatch(*tr, 0, MForm::TraitUfcs), args);
+                self.label("method:dyn-shown");
                 let s = self.show(&sig.ret, call);
                 Self::concat(vec![Expr::Str("dyn:".into()), s])
             }
@@ -2029,7 +2050,15 @@ impl<'a, 'd> Gen<'a, 'd> {
         // expression (an effect in the tail position of the loop body)
         let tail = if self.d.chance(70) {
             self.label("while:tail-expr");
-            Some(Box::new(self.expr(&Ty::Unit, fuel - 1)))
+            // a unit-returning method call (static, through a bound, on a trait object) when there is one
+            let m = if self.cfg.traits && self.d.chance(200) { self.method_calls(&Ty::Unit, fuel - 1) } else { None };
+            if m.is_some() {
+                self.label("while:tail-method-call");
+            }
+            Some(Box::new(match m {
+                Some(e) => e,
+                None => self.expr(&Ty::Unit, fuel - 1),
+            }))
         } else {
             None
         };
@@ -2068,6 +2097,10 @@ impl<'a, 'd> Gen<'a, 'd> {
             return None;
         }
         let f = cands[self.d.below(cands.len())];
+        self.let_call_of(f, fuel)
+    }
+
+    fn let_call_of(&mut self, f: usize, fuel: i32) -> Option<Vec<Stmt>> {
         let n = self.p.fns[f].tparams;
         let targs: Vec<Ty> = (0..n)
             .map(|k| self.targ_for(f, k as usize, if self.cfg.focus == Focus::Generics { 2 } else { 1 }))
@@ -2508,7 +2541,31 @@ impl<'a, 'd> Gen<'a, 'd> {
             }
             (Ty::Fn(ps, Box::new(r)), Expr::Block(stmts, Some(Box::new(c))))
         } else {
-            let body = self.block(&ret, 3);
+            // what the bounds and trait-object parameters are for: calls through them
+            let mut pre = vec![];
+            for k in 0..tparams as usize {
+                for tr in bounds[k].clone() {
+                    if self.d.chance(200) {
+                        let recv = self.param_value(&Ty::Param(k as u32));
+                        pre.push(self.dispatch_stmt(recv, tr, true, 2));
+                    }
+                }
+            }
+            for (v, t) in params.clone() {
+                if let Ty::Dyn(tr) = t {
+                    // (an earlier statement of this prologue may have shadowed the parameter)
+                    if self.visible().iter().any(|(x, _)| *x == v) && self.d.chance(200) {
+                        pre.push(self.dispatch_stmt(Expr::Var(v), tr, false, 2));
+                    }
+                }
+            }
+            let body = match self.block(&ret, 3) {
+                Expr::Block(stmts, fin) if !pre.is_empty() => {
+                    pre.extend(stmts);
+                    Expr::Block(pre, fin)
+                }
+                other => other,
+            };
             (ret, body)
         };
         self.scope.clear();
@@ -2527,12 +2584,33 @@ impl<'a, 'd> Gen<'a, 'd> {
         self.scope.clear();
         let mut stmts = vec![];
         let n = 2 + self.d.below(6);
-        for _ in 0..n {
-            if self.budget <= 0 {
+        // every bounded generic function is called once or twice (at implementing types chosen
+        // independently), somewhere among the other statements
+        let mut planned: Vec<usize> = vec![];
+        for f in self.user_fns.clone() {
+            if self.p.fns[f].bounds.iter().any(|b| !b.is_empty()) && self.d.chance(220) {
+                planned.push(f);
+                if self.d.bool() {
+                    planned.push(f);
+                }
+            }
+        }
+        for step in 0..n + planned.len() {
+            if self.budget <= 0 && planned.is_empty() {
                 break;
             }
             let before = self.scope.len();
-            let ss = self.stmt(4);
+            let forced = if !planned.is_empty() && (step >= n || self.d.chance(100)) {
+                let f = planned.remove(0);
+                if self.fn_nameable(f) { self.let_call_of(f, 3) } else { None }
+            } else {
+                None
+            };
+            let ss = match forced {
+                Some(ss) => ss,
+                None if step >= n => continue,
+                None => self.stmt(4),
+            };
             stmts.extend(ss);
             // print every printable variable this statement introduced
             let new_vars: Vec<VarId> = self.scope[before..].iter().map(|v| v.id).collect();
